@@ -907,8 +907,14 @@ Stylesheet::addTemplate(
                     }
                     else if (data[i].getTargetType() == XPath::TargetData::eAny)
                     {
+                        // An id() or key() pattern: key() can return a
+                        // node of any kind.
                         addToList(m_elementAnyPatternList, newMatchPat);
                         addToList(m_attributeAnyPatternList, newMatchPat);
+                        addToList(m_commentPatternList, newMatchPat);
+                        addToList(m_textPatternList, newMatchPat);
+                        addToList(m_piPatternList, newMatchPat);
+                        addToList(m_rootPatternList, newMatchPat);
                     }
                 }
                 else
